@@ -93,6 +93,8 @@ SuppCons ==
        <<"if-noelse-list", If(Bin("&", A, K(1)), << Upd(X, 4), Upd(X, 5), Upd(X, 6) >>)>>,
        <<"ifelse-list", IfElse(Bin("&", A, K(1)), << Upd(X, 4), Upd(X, 5) >>, << Upd(X, 6), Upd(X, 7), Upd(X, 8) >>)>>,
        <<"for-list", Loop(<< Upd(X, 4), Upd(X, 5), Upd(X, 6) >>)>>,
+       <<"for-step-assign", For(Set(I, K(0)), Bin("<", I, K(3)), Assign(I, "=", Bin("+", I, K(1))), << Upd(X, 4) >>)>>,
+       <<"for-step-compound", For(Set(I, K(0)), Bin("<", I, K(4)), Assign(I, "+=", K(2)), << Upd(X, 4), Upd(X, 5) >>)>>,
        <<"empty-then-stmt", Block(<< [k |-> "empty"], Upd(X, 4), [k |-> "empty"], Upd(X, 5) >>)>>
     >>
 
